@@ -170,6 +170,13 @@ def run(rep):
     except Undecided as ex:
         nst = None
         rep.undecided("R06.a", gfile, "c_neighbours", "slot store", str(ex), line=inner.get("_line"))
+    pre_scalars = {}
+    try:
+        pre2 = cq.evaluate(cq.preceding(ntop, outer), oracle=lambda c: False, arrays={cname: cellarr})
+        if pre2.finals:
+            pre_scalars = {k_: v_ for k_, v_ in pre2.finals[-1][0].items() if "[" not in k_ and isinstance(v_, tuple)}
+    except Undecided:
+        pre_scalars = {}
     if nst is not None:
         verdicts = {}
         for swap in (False, True):
@@ -186,12 +193,18 @@ def run(rep):
                                     else:
                                         envv[inner_v if not swap else outer_v] = dx
                                         envv[outer_v if not swap else inner_v] = dy
+                                    # scalars set before the loops (a column / row kept in a local): their value under this assignment
+                                    for k_, v_ in pre_scalars.items():
+                                        if k_ not in envv:
+                                            iv_ = cq.int_eval(v_, envv)
+                                            if iv_ is not None:
+                                                envv[k_] = iv_
                                     live = []
                                     for e in nst:
                                         vals = [(cq.int_eval(cnd, envv), t) for cnd, t in e.conds]
                                         if any(v is None for v, _t in vals):
                                             badc_ = [cnd for (cnd, _t2), (v, _t) in zip(e.conds, vals) if v is None]
-                                            und_ = f"test outside the integer vocabulary: {show(badc_[0])[:80]}"
+                                            und_ = f"test outside the integer vocabulary: {show(badc_[0])[:300]}"
                                             continue
                                         if all(bool(v) == t for v, t in vals):
                                             live.append(e)
